@@ -143,6 +143,7 @@ type splitReader struct {
 	k     int
 	pos   int
 	delay time.Duration // virtual time each read takes (bubble only)
+	eofWithData bool    // the read that delivers the last bytes also returns io.EOF
 	zero  bool  // deliver a (0, nil) read before each segment
 	errAt int   // fail at this position (<0 never)
 	z     bool
@@ -176,6 +177,9 @@ func (s *splitReader) Read(p []byte) (int, error) {
 	}
 	copy(p, s.data[s.pos:s.pos+n])
 	s.pos += n
+	if s.eofWithData && s.pos >= len(s.data) {
+		return n, io.EOF
+	}
 	return n, nil
 }
 
@@ -253,6 +257,24 @@ func (h *c14) runWriter(geom string, index, offset, length uint32, body []byte, 
 		case "readfrom":
 			n, _ := wr.ReadFrom(&splitReader{data: body, segs: segs, zero: zero, errAt: errAt})
 			accepted += n
+		case "multi": // the range arrives through several consecutive copies into the same writer,
+			// as when a fetch spans several files (segs = lengths of the parts)
+			pos := 0
+			for _, pl := range append(append([]int{}, segs...), len(body)) {
+				if pos >= len(body) {
+					break
+				}
+				e := pos + pl
+				if e > len(body) {
+					e = len(body)
+				}
+				n, err := io.Copy(wr, &splitReader{data: body[pos:e], errAt: -1, eofWithData: zero})
+				accepted += n
+				pos = e
+				if err != nil {
+					break
+				}
+			}
 		case "copy": // io.Copy picks ReadFrom; a LimitReader in front, as GetRight does
 			n, _ := io.Copy(wr, io.LimitReader(&splitReader{data: body, segs: segs, zero: zero, errAt: errAt}, int64(length)))
 			accepted += n
@@ -342,6 +364,7 @@ type seedServer struct {
 	requests []string
 	chunk    int
 	delay    time.Duration
+	files    map[string][]byte // multi-file seeds: URL path -> content of that file
 }
 
 func (s *seedServer) RoundTrip(req *http.Request) (*http.Response, error) {
@@ -364,6 +387,13 @@ func (s *seedServer) RoundTrip(req *http.Request) (*http.Response, error) {
 		}
 		a, b = piece*2*wchunk+pa, piece*2*wchunk+pb-1
 		hasRange = true
+	}
+	if s.files != nil {
+		f, ok := s.files[req.URL.Path]
+		if !ok {
+			return &http.Response{StatusCode: 404, Status: "404 no such file", Proto: "HTTP/1.1", ProtoMajor: 1, ProtoMinor: 1, Header: http.Header{}, Body: io.NopCloser(strings.NewReader("")), Request: req}, nil
+		}
+		s.truth = f
 	}
 	L := int64(len(s.truth))
 	if b >= L {
@@ -552,6 +582,100 @@ func (h *c14) endToEnd(t *testing.T, mode string, hoffman bool, piece uint32, pr
 	})
 }
 
+// multiFile: fetches that span several files (and a padding file) of a
+// multi-file torrent, through the real maybeWebseed -> webseedGR -> GetRight.Get.
+func (h *c14) multiFile(t *testing.T, mode string, chunk int, eofData bool) {
+	h.res.Add("evaluations", 1)
+	synctest.Test(t, func(t *testing.T) {
+		peer.VerifReset()
+		config.DefaultUseWebseeds = true
+		config.PrefetchRate = 768 * 1024
+		files := []fixture.File{{Path: []string{"a"}, Length: 100}, {Path: []string{".pad", "1"}, Length: 16284, Padding: true}, {Path: []string{"d", "b"}, Length: 40000}, {Path: []string{"c"}, Length: 9152}}
+		meta, truth := fixture.Metainfo("mf", files, 32768, nil)
+		tor, err := ReadTorrent("", bytes.NewReader(meta))
+		if err != nil {
+			panic(err)
+		}
+		tor.Log = discardLog
+		tor.Event = make(chan peer.TorEvent, 4096)
+		tor.Done = make(chan struct{})
+		tor.Deleted = make(chan struct{})
+		tor.rand = rand.New(rand.NewPCG(1, 2))
+		tor.useWebseeds = true
+		srv := &seedServer{mode: mode, chunk: chunk, files: map[string][]byte{}}
+		var off int64
+		for _, f := range files {
+			srv.files["/f/mf/"+strings.Join(f.Path, "/")] = truth[off : off+f.Length]
+			off += f.Length
+		}
+		httpclient.VerifInstall("", "", srv)
+		ws := webseed.New("http://seed.example/f", true)
+		tor.webseeds = []webseed.Webseed{ws}
+		ctx := context.Background()
+		where := fmt.Sprintf("[multi-file layout a:100 .pad/1:16284(padding) d/b:40000 c:9152, server %s, body chunking %d]", mode, chunk)
+		for piece := uint32(0); piece < 2; piece++ {
+			for round := 0; round < 3; round++ {
+				maybeWebseed(ctx, tor, piece, false)
+				synctest.Wait()
+				time.Sleep(40 * time.Second)
+				synctest.Wait()
+				for {
+					select {
+					case e := <-tor.Event:
+						if d, ok := e.(peer.TorData); ok {
+							d.Complete = false
+							e = d
+						}
+						handleEvent(ctx, tor, e)
+						continue
+					default:
+					}
+					break
+				}
+				for c, v := range tor.inFlight {
+					if v != 0 {
+						h.viol("C14/reservation-not-released", "block %d is still marked in flight (%d) after a fetch for piece %d ended %s", c, v, piece, where)
+						tor.Pieces.Del()
+						return
+					}
+				}
+			}
+		}
+		srv.mu.Lock()
+		reqs := append([]string{}, srv.requests...)
+		srv.mu.Unlock()
+		for _, r := range reqs {
+			u, rg, _ := strings.Cut(r, " ")
+			pth := strings.TrimPrefix(u, "http://seed.example")
+			f, ok := srv.files[pth]
+			if !ok || strings.Contains(pth, ".pad") {
+				h.viol("C14/multifile-wrong-url", "the fetch asked for %q, which is not a (non-padding) file of the torrent %s", u, where)
+				continue
+			}
+			var a, b int64
+			if n, _ := fmt.Sscanf(rg, "bytes=%d-%d", &a, &b); n != 2 || a > b || b >= int64(len(f)) {
+				h.viol("C14/multifile-wrong-range", "the fetch asked for %q of %q, a file of %d bytes %s", rg, pth, len(f), where)
+			}
+		}
+		// whatever was stored is the true content, at the right place
+		for piece := uint32(0); piece < 2; piece++ {
+			s := int64(piece) * 32768
+			_, bm := tor.Pieces.PieceBitmap(piece)
+			stored := bm.Count()
+			tor.Pieces.AddData(piece, 0, append([]byte{}, truth[s:s+32768]...), ^uint32(0))
+			if done, _, err := tor.Pieces.Finalise(piece, tor.PieceHashes[piece]); !done && mode != "body-garbage" {
+				h.viol("C14/multifile-stored-wrong-bytes", "piece %d: after completing it with true data its hash does not match: the fetch stored wrong or misplaced bytes (%v; %d blocks had been stored) %s", piece, err, stored, where)
+			}
+			if mode == "honoured" && stored != 2 {
+				h.viol("C14/multifile-incomplete", "an honest server was asked for piece %d three times and only %d of 2 blocks were stored %s", piece, stored, where)
+			}
+		}
+		tor.Pieces.Del()
+		h.nontriv[fmt.Sprintf("mf/%s/%d/%d", mode, chunk, len(reqs))] = true
+	})
+	_ = eofData
+}
+
 // bigFetches: ten successive fetches into 4 MiB pieces from an honest server;
 // the measured rate grows from fetch to fetch and with it the cap on the fetch
 // length.  After each fetch every reservation must be released.
@@ -713,6 +837,15 @@ func TestVerifC14(t *testing.T) {
 						}
 					}
 				}
+				if mode == "copy" {
+					// several consecutive copies into one writer (a fetch spanning files),
+					// with and without the last read of each part returning data+EOF
+					for _, parts := range [][]int{{100}, {16384}, {100, 16284}, {16383, 1}, {1, 16383, 16384}, {16385}, {100, 16284, 100}, {20000}, {16384, 16384}} {
+						for _, eofData := range []bool{false, true} {
+							h.runWriter(r.geom, r.idx, r.off, r.l, body, "multi", parts, eofData, -1)
+						}
+					}
+				}
 				if mode != "write" {
 					h.runWriter(r.geom, r.idx, r.off, r.l, body, mode, []int{100, 16384}, true, -1)
 					for _, e := range []int{0, 1, 16383, 16384, 16385, len(body) - 1} {
@@ -742,6 +875,14 @@ func TestVerifC14(t *testing.T) {
 					}
 				}
 			}
+		}
+	}
+	for _, mode := range []string{"honoured", "body-short", "body-long", "404", "shorter-range", "body-fails-mid", "200-full", "star-total"} {
+		if !mine() {
+			continue
+		}
+		for _, chunk := range []int{1 << 20, 1000, 16384, 100} {
+			h.multiFile(t, mode, chunk, false)
 		}
 	}
 	// holes larger than 1 MiB: the length of a fetch is capped according to the
